@@ -28,21 +28,55 @@ claimed = {
    text="Deductive proof for the version and dependency/architecture parsers (45 functions so far): every BOUNDS/NIL/OVERFLOW/DIV0 obligation (no panic), a decreases clause on every loop and recursion (no hang), value-xor-error postconditions, and checked modifies frames (no write outside arguments and fresh objects, no global writes: calls on disjoint inputs commute). The control-paragraph, typed-document and changelog parsers and the dynamic race detector are covered by the bounded stand-in (all byte strings up to length 4 per entry point, 233 k mutated seed documents, 64-way concurrent parsing, go run -race in the thorough tier), labelled bounded.",
    note=TB+"Reflection-based decoders and scheduling are outside the verifier; they are only exercised by the bounded harness.",
    technique=DED+"; bounded exhaustive stand-in for the remaining entry points", design="3 (C18)"),
+
+ "C05": dict(
+   text="Deductive proof for architecture names, all inputs: parseArchInto/ParseArch/Arch.UnmarshalControl equal a parse spec written from the statement (two-part names leave the ABI open, lone any/all is all three parts, other lone names are gnu-linux-<name>), also when decoding into a used value; Arch.String is proved to be the inverse of that spec for every triple with non-empty parts whose ABI and OS contain no dash (inductive lemmas about the position of the dashes in the rendered name), so a wildcard is neither widened nor narrowed; an appended profile list has at least one profile. That render-then-parse is a fixpoint for whole dependency fields is checked by the bounded stand-in (token sequences up to length 5/6 over a 16-token alphabet), labelled bounded.",
+   note=TB+"strings.SplitN/Contains contracts assumed. Whole-field fixpoint: bounded only.",
+   technique=DED+"; bounded exhaustive stand-in for the whole-field fixpoint", design="3 (C05), 6"),
+ "C07": dict(
+   text="Deductive proof, for arbitrary input bytes, of the representation invariant of every paragraph ParagraphReader.Next returns and All collects (each listed name has a value, each valued name is listed, no name twice - carried as a loop invariant with a position function over the heap), of termination and of a-value-xor-an-error; Paragraph.Set/Update preserve it. Conformance of the values to the deb822 document model (logical lines, comments, CRLF, final newline) and the agreement of Next/All/Unmarshal are checked by the bounded stand-in (6.4 M model documents), labelled bounded.",
+   note=TB+"bufio.Reader.ReadString is modelled over a ghost 'remaining input' string (trusted). Model conformance: bounded only.",
+   technique=DED+"; bounded exhaustive stand-in for model conformance", design="3 (C07), 6"),
+ "C09": dict(
+   text="Deductive proof of the merge half: Paragraph.Set and Paragraph.Update keep unknown fields in place with their values, append new names once, in order, and preserve the paragraph invariant. The reflective walkers (Marshal/Unmarshal) are outside the verifier and are checked by the bounded stand-in (22 probe struct types, embedded raw paragraphs with renamed fields, 68 k cases), labelled bounded.",
+   note=TB+"reflect-based encode/decode: bounded only.",
+   technique=DED+"; bounded exhaustive stand-in for the reflective walkers", design="3 (C09), 6"),
+ "C10": dict(
+   text="Deductive proof of the leaf code and accessors: the checksum-line parser (3- and 2-column forms, algorithm tag, by-hash name), the four element types each tagging their OWN algorithm, the .changes file-list line parser, HasArchAll, Maintainers (both), AbsFiles (both), DebianSource, SourcePackage, BestChecksums.Checksums - each against a postcondition taken from the statement. Static TAG obligations (no solver): for every row of a Debian layout table (8 document types, 113 rows) a struct field with that key exists and its Go type, delim and strip realise the field's syntax, under a trusted contract for the reflective walker. Whole-document decoding is checked by the bounded stand-in (37 k documents), labelled bounded.",
+   note=TB+"The reflective walker's contract (field := conv(kind, delim, strip, Values[key])) is assumed; strings.Fields/Split/Contains, path.Join, filepath.Dir/Base are uninterpreted.",
+   technique=DED+"; static obligations over struct tags; bounded stand-in for whole documents", design="3 (C10), 6"),
+ "C11": dict(
+   text="Deductive proof of the wiring (openpgp trusted): decodeClearsig/NewParagraphReader parse exactly the signed text of the input and nothing else; with a keyring, success implies that CheckDetachedSignature accepted exactly that text against exactly that keyring, and the reported signer is the entity it returned; without a check there is no signer; unsigned input is passed through without a signer. Bounded stand-in (28 k corrupted clearsigned inputs with real keys) beside it.",
+   note=TB+"clearsign.Decode and openpgp.CheckDetachedSignature are assumed (an empty keyring validates nothing; unforgeability is not ours to prove); ioutil.ReadAll, bufio, bytes readers over ghost content.",
+   technique=DED+" with trusted contracts on the OpenPGP library", design="3 (C11), 6"),
+ "C12": dict(
+   text="Deductive proof over a ghost byte stream per hash object (digest functions uninterpreted): GetHash's name table; the Hasher invariant size == len(stream) under the named algorithm, preserved by every Write of any size (so any chunking gives the same stream), Size and Sum; the four constructors forward to the target and to one fresh Hasher per requested name, in order, pairwise distinct; FileHash.Verifier hashes with the entry's own algorithm against the entry's own recorded hash, Close accepts iff the full digest equals it (first call decides); FileHashFromHasher; BestChecksums selection and element tags (TAG obligations). Bounded stand-in (2 M cases against crypto/*) beside it.",
+   note=TB+"hash.Hash.Write/Sum, crypto/*.New, hex.DecodeString, bytes.Equal, io.MultiWriter/TeeReader are assumed contracts; streams shorter than 2^63 bytes.",
+   technique=DED+" with trusted contracts on hash/io", design="3 (C12), 6"),
+ "C13": dict(
+   text="Deductive proof against a byte-level layout spec on the ghost file behind the io.ReaderAt: checkAr/LoadAr accept exactly the global magic (also from a reader that reports EOF with the last bytes); parseArEntry takes each field from its own columns (map-range loop with a visited-set invariant), Next returns the member whose fields are the header's columns, a reader over exactly its data bytes, advances by 60+size+padding, reports io.EOF only at a clean end; completeness: a well-formed member is returned and the end of a well-formed archive is io.EOF. Bounded stand-in (329 k archives) beside it.",
+   note=TB+"io.ReaderAt.ReadAt (ghost file, no I/O failure for the completeness clauses), io.NewSectionReader, strconv.ParseUint, strings.TrimSpace/TrimSuffix assumed.",
+   technique=DED, design="3 (C13), 6"),
+ "C15": dict(
+   text="Deductive proof without any well-formedness precondition: every successful Next advances by at least 60 bytes inside the file (step bound and termination of the loader's member loop), returns a non-negative size with the data inside the file, never panics or overflows; findDeb2Member returns the ONLY member with the prefix or an error (map-range proof: the choice does not depend on iteration order); loadDeb2/loadDeb value xor error. Bounded stand-in (16.8 M corrupted archives) beside it.",
+   note=TB+"decompressors, archive/tar and the reflective control decoder are trusted/havocked (loadDeb2Control/Data).",
+   technique=DED, design="3 (C15), 6"),
+ "C16": dict(
+   text="Deductive proof of the wiring (openpgp trusted): CheckDebsig succeeds only if the role's own '_gpg<role>' member and debian-binary exist and there is exactly one control.* and one data.* member - found by the same verified findDeb2Member the loader uses - and CheckDetachedSignature accepted the supplied keyring over the concatenation debian-binary ++ control ++ data of exactly those members' complete contents, with the role member's complete content as signature. Bounded stand-in (7 k signed packages) beside it.",
+   note=TB+"openpgp.CheckDetachedSignature, io.MultiReader/NewSectionReader over ghost content assumed.",
+   technique=DED+" with trusted contracts on the OpenPGP library", design="3 (C16), 6"),
+ "C17": dict(
+   text="Deductive proof, for arbitrary input: ParseOne returns io.EOF only at a clean end (input exhausted and everything consumed since the previous entry blank), so input ending inside an entry yields another error; a value xor an error; progress and termination of ParseOne and Parse; partition splits at the FIRST delimiter and keeps the rest verbatim. Field-by-field conformance to the dpkg changelog model is checked by the bounded stand-in (2.8 M renderings and truncations), labelled bounded.",
+   note=TB+"bufio ReadString over ghost input, time.Parse, strings.SplitN assumed. Model conformance: bounded only.",
+   technique=DED+"; bounded exhaustive stand-in for model conformance", design="3 (C17), 6"),
+ "C20": dict(
+   text="Deductive proof against a ghost file-system effect model (a clock and per-path delivery/source/removal times; every OS call may fail, so all fault sequences are covered at once): for DSC and Changes, Copy/Move deliver every referenced file during the call, strictly before the control file, from the control file's own directory; on failure the control file is not delivered (for Move it is still at its source) and the handle is unchanged; on success the handle points at the new location; Remove deletes the control file last; whatever is delivered, moved or removed is a plain listed name or the control file (confinement), and a non-plain name stops everything before the first effect; CheckFilename accepts exactly the plain names. Bounded stand-in on a real file system (320 scenarios, byte identity) beside it.",
+   note=TB+"os.Rename/Remove/Stat and internal.Copy (temp file + rename) are assumed contracts over the ghost model; byte identity of copies is checked only by the bounded harness.",
+   technique=DED+" with a ghost effect model for the OS", design="3 (C20), 6"),
 }
 BOUNDED = {
- "C05": "renders/re-parses every token sequence up to length 5/6 over a 16-token alphabet and every architecture name of up to 4 components; fixpoint in one step and (abi, os, cpu) round trip",
- "C07": "3.7 M deb822 documents from the model (comments, blank runs, CRLF, final newline) against an independent oracle; representation invariant on all byte strings up to length 6/7 over 8 bytes; Next/All/Unmarshal agreement",
  "C08": "936 k paragraphs / documents through three write-read cycles and the encoder; no blank line inside a paragraph, identity up to one trailing newline, no growth",
- "C09": "22 probe struct types x value cross products, embedded raw paragraph with unknown fields in every slot; Unmarshal(Marshal(x)) == x, omission/required rules, no panic",
- "C10": "37 k documents of the six typed kinds rendered from field models in the Debian layout; typed parsers and accessors against the model",
- "C11": "28 k clearsigned inputs: 2 keys x 5 keyring compositions x every single-byte substitution/deletion/insertion/truncation and splices of foreign text; success only with a valid keyring signature over exactly the parsed text",
- "C12": "2 M (content, chunking, algorithm list) cases against crypto/* and all recorded-hash variants through every verifier entry point",
- "C13": "329 k ar archives from the member-list model; every field, data re-readable after iteration, exactly io.EOF at the end",
- "C15": "16.8 M corrupted archives / .debs (every header column x 10 hostile values, every truncation, substitutions, duplicated members, all 3-byte tails): step bound, no panic/hang, returned members consistent, deterministic",
- "C16": "7 k signed-package cases: roles x keyrings x byte corruption of every signed member x decoy members; payload still readable after verification",
- "C17": "2.5 M changelog renderings and every truncation point of 14.7 k of them; all entries or an error, never a silently shortened list",
  "C19": "85 k build-dependency graphs rendered as .dsc text (alternatives, arch restrictions, substvars, three fields, folded Binary lists); permutation, edges respected, error iff cycle, deterministic",
- "C20": "320 real-file-system scenarios: Copy/Move/Remove x .dsc/.changes x injected failure at every file x hostile names, plus a watcher on the order of appearance",
 }
 for pid, what in BOUNDED.items():
     claimed[pid] = dict(category="exploration",
